@@ -25,6 +25,17 @@ def _resolvable(cfg):
     return all(g > 1e6 * math.ulp(scale) for g in gaps)
 
 
+def near_any_edge(cfg, x, ulps=4):
+    """is the float x within a few ulps of an edge of the configuration?"""
+    if math.isnan(x) or math.isinf(x):
+        return False
+    for e in exact_edges(cfg):
+        f = float(e)
+        if abs(x - f) <= ulps * max(math.ulp(x), math.ulp(f)):
+            return True
+    return False
+
+
 def gen_config(rng):
     while True:
         cfg = _gen_config(rng)
@@ -60,15 +71,17 @@ def build(cfg):
 
     q = eval("lambda x: x", {})
     k = cfg["kind"]
+    # bins that only count, or bins with a content of their own (the vectorised fill then takes its generic path)
+    v = (lambda: hg.Sum(eval("lambda x: x * 0.0 + 1.0", {}))) if cfg.get("child") == "sum" else hg.Count
     if k == "Bin":
-        return hg.Bin(cfg["n"], cfg["low"], cfg["high"], q)
+        return hg.Bin(cfg["n"], cfg["low"], cfg["high"], q, v())
     if k == "SparselyBin":
-        return hg.SparselyBin(cfg["width"], q, origin=cfg["origin"])
+        return hg.SparselyBin(cfg["width"], q, v(), origin=cfg["origin"])
     if k == "CentrallyBin":
-        return hg.CentrallyBin(cfg["centers"], q)
+        return hg.CentrallyBin(cfg["centers"], q, v())
     if k == "IrregularlyBin":
-        return hg.IrregularlyBin(cfg["edges"], q)
-    return hg.Stack(cfg["thresholds"], q)
+        return hg.IrregularlyBin(cfg["edges"], q, v())
+    return hg.Stack(cfg["thresholds"], q, v())
 
 
 def exact_edges(cfg):
@@ -195,18 +208,25 @@ def record_one(job):
     for step in range(job.get("nfill", 14)):
         xid = rng.randrange(len(ps))
         x, near = ps[xid]
+        vec = rng.random() < 0.35     # the same probe through the vectorised path (a one-row batch)
+        f32 = vec and rng.random() < 0.4 and not math.isnan(x) and abs(x) < 1e30
+        if f32:
+            # ... as a float32 array: the value the library receives is the float32 nearest to the probe
+            import numpy as np
+
+            x = float(np.float32(x))
+            near = near_any_edge(cfg, x)
         cls, r = classify(cfg, x)
         w = rng.choice([1.0, 1.0, 2.0, 0.5])
-        vec = rng.random() < 0.35     # the same probe through the vectorised path (a one-row batch)
         if abs(x) > 1e300:
             huge = True
         ev = {"op": "EFill", "xid": xid + 1, "cls": cls, "r": int(r), "near": bool(near), "w": list(pnum(w)),
-              "x": repr(x), "vec": bool(vec), "out": "ok", "exc": ""}
+              "x": repr(x), "vec": bool(vec), "f32": bool(f32), "out": "ok", "exc": ""}
         try:
             if vec:
                 import numpy as np
 
-                h.fill.numpy(np.array([x], dtype=np.float64), w)
+                h.fill.numpy(np.array([x], dtype=np.float32 if f32 else np.float64), w)
             else:
                 h.fill(x, w)
         except Exception as e:
